@@ -358,3 +358,61 @@ def _rwlock(V):
     V.ensure("rwlock/aliases-of-one-file-share-one-lock-file", outs[0] == outs[1])
     o3 = V.call("molli._aux.lock:rwlock", [Obj(Path, {"s": p}, tag="path")])
     V.ensure("rwlock/str-and-Path-arguments-agree", z3.BoolVal(o3.returned) if not o3.returned else to_z3(o3.value.fields["s"]) == outs[0])
+
+
+# ------------------------------------------------------------------------------------------ creating / opening a library file
+@P.unit(f"{BACKEND}.__init__", name="UkvCollectionBackend(path): the existence test and the (re)initialisation of the file happen inside ONE write-lock bracket",
+        functions=[f"{BACKEND}.__init__", f"{BASE}.__init__"])
+def _backend_init(V):
+    """several processes may open a library that does not exist yet: whoever tests for the file and creates it must hold the write
+    lock across both steps (check-then-act), and must never truncate a file it did not find missing unless asked to overwrite"""
+    I, st = V.I, V.st
+    Path = I.ext_models["pathlib.Path"]
+    exists = V.choose([False, True], "file-exists")
+    overwrite = V.choose([False, True], "overwrite")
+    create_fails = V.choose([False, True], "initialisation-raises")
+    trace = []
+    made = []
+    lock_holder = {}
+    Path.ns["is_file"] = Builtin("Path.is_file", lambda i, a, k: trace.append(("is_file", lock_holder["lock"].fields["held"])) or exists)
+    Path.ns["exists"] = Path.ns["is_file"]
+
+    def ukv_new(I_, cls, args, kw):
+        mode = kw.get("mode", args[1] if len(args) > 1 else "r")
+        trace.append(("UKVFile", mode, lock_holder["lock"].fields["held"]))
+        if create_fails:
+            I_.raise_py("OSError", "cannot create")
+        o = Obj(cls, {"closed": False}, tag="ukv")
+        made.append(o)
+        return o
+    I.stubs[UKV] = ukv_new
+    ucls = V.cls(UKV)
+    ucls.ns["__enter__"] = Builtin("enter", lambda i, a, k: a[0])
+    ucls.ns["__exit__"] = Builtin("exit", lambda i, a, k: a[0].fields.__setitem__("closed", True) or False)
+    real_new = I.LockCls.ns["__pyvc_new__"]
+
+    def lock_new(i, cls, a, k):
+        lk = real_new(i, cls, a, k)
+        lock_holder["lock"] = lk
+        return lk
+    I.LockCls.ns["__pyvc_new__"] = lock_new
+    V.witness(lambda ev: {"op": "backend-init", "exists": exists, "overwrite": overwrite, "signature": "backend-init"})
+    V.cover()
+    cls = V.cls(BACKEND)
+    I.target = f"{BACKEND}.__init__"
+    try:
+        out = Outcome("return", I.call(cls, [V.sym("path", "str")], {"overwrite": overwrite, "readonly": False, "bufsize": 0}))
+    except PyExc as ex:
+        out = Outcome("raise", exc=ex.value)
+    finally:
+        I.LockCls.ns["__pyvc_new__"] = real_new
+    tests = [t for t in trace if t[0] == "is_file"]
+    inits = [t for t in trace if t[0] == "UKVFile"]
+    V.ensure("init/existence-test-under-the-write-lock", z3.BoolVal(len(tests) >= 1 and all(t[1] == "write" for t in tests)))
+    V.ensure("init/file-(re)initialised-under-the-write-lock", z3.BoolVal(all(t[2] == "write" for t in inits)))
+    evs = [e for e in st.trace if e[0] in ("acquire", "release")]
+    V.ensure("init/test-and-initialisation-share-one-lock-bracket", z3.BoolVal(len([e for e in evs if e[0] == "acquire"]) == 1))
+    want = [] if (exists and not overwrite) else [("x" if not exists else "w")]
+    V.ensure("init/creates-only-a-missing-file-truncates-only-on-overwrite", z3.BoolVal([t[1] for t in inits] == want))
+    V.ensure("init/lock-released-on-every-exit", z3.BoolVal("lock" in lock_holder and lock_holder["lock"].fields["held"] is None))
+    V.ensure("init/raises-only-when-initialisation-fails", z3.BoolVal(out.returned == (not (create_fails and want))))
